@@ -176,6 +176,7 @@ class RZILTransformer(Transformer):
         return res
 
     def emit_final_seq_return(self, items, res):
+        items = self.take_pending_effects(flatten_list(items))
         # Hybrids which have no parent in the AST
         left_hybrids = [
             self.il_ops_holder.hybrid_effect_dict.pop(hid)
@@ -519,7 +520,11 @@ class RZILTransformer(Transformer):
         self.ext.set_token_meta_data("selection_stmt")
         cond = items[1]
         then_seq = self.chk_hybrid_dep(
-            self.add_op(Sequence(f"seq_then", flatten_list(items[2])))
+            self.add_op(
+                Sequence(
+                    f"seq_then", self.take_pending_effects(flatten_list(items[2]))
+                )
+            )
         )
         name = f"branch"
         if items[0] == "if" and len(items) == 3:
@@ -528,7 +533,11 @@ class RZILTransformer(Transformer):
             )
         elif items[0] == "if" and len(items) > 3 and items[3] == "else":
             else_seq = self.chk_hybrid_dep(
-                self.add_op(Sequence(f"seq_else", flatten_list(items[4])))
+                self.add_op(
+                    Sequence(
+                        f"seq_else", self.take_pending_effects(flatten_list(items[4]))
+                    )
+                )
             )
             return self.chk_hybrid_dep(
                 self.add_op(Branch(name, cond, then_seq, else_seq))
@@ -975,7 +984,12 @@ class RZILTransformer(Transformer):
                 f"For loops with {len(items)} elements is not supported yet."
             )
         compound = self.chk_hybrid_dep(
-            self.add_op(Sequence(f"seq", flatten_list(items[4]) + [items[3]])),
+            self.add_op(
+                Sequence(
+                    f"seq",
+                    self.take_pending_effects(flatten_list(items[4])) + [items[3]],
+                )
+            ),
             HybridSeqOrder.SEQ_THEN_HYB,
         )
         return self.chk_hybrid_dep(
@@ -1032,15 +1046,22 @@ class RZILTransformer(Transformer):
 
     def block_item(self, items):
         self.ext.set_token_meta_data("block_item")
-        item = items[0]
-        if (
-            isinstance(item, Pure)
-            and item.get_name() in self.il_ops_holder.hybrid_effect_dict
-        ):
-            # An expression statement whose value is not used (i++; f(x);).
-            # Its side effect takes place here, between the neighbouring statements.
-            return self.il_ops_holder.hybrid_effect_dict.pop(item.get_name())
-        return item
+        return self.take_pending_effects([items[0]])[0]
+
+    def take_pending_effects(self, stmts: list) -> list:
+        """An expression statement whose value is not used (i++; f(x);) is only the
+        temporary holding that value. Its side effect takes place where the
+        statement stands, so the temporary is replaced by the pending effect.
+        """
+        res = list()
+        for stmt in stmts:
+            if (
+                isinstance(stmt, Pure)
+                and stmt.get_name() in self.il_ops_holder.hybrid_effect_dict
+            ):
+                stmt = self.il_ops_holder.hybrid_effect_dict.pop(stmt.get_name())
+            res.append(stmt)
+        return res
 
     def chk_hybrid_dep(
         self, effect: Effect, order: HybridSeqOrder = HybridSeqOrder.HYB_THEN_SEQ
